@@ -13,6 +13,8 @@ def sym_event(sym, rng=None, k=0):
     """One event of the alphabet.  `k` varies payloads so that 'first' is distinguishable."""
     if sym == "R":
         return {"k": "resp", "id": "$ID", "p": {"v": k}}
+    if sym == "R0":  # falsy results ({} is what ping / subscribe / setLevel answer)
+        return {"k": "resp", "id": "$ID", "p": [{}, [], 0, False, ""][k % 5]}
     if sym == "Rj":  # result that is not an object
         return {"k": "resp", "id": "$ID", "p": PAYLOADS[k % len(PAYLOADS)]}
     if sym == "E":
@@ -59,7 +61,9 @@ def needs_late(ev, case):
     """Events referring to an id/token that only exists after the request is written must not be
     scripted at tick 0."""
     s = repr(ev)
-    return "$TOK" in s or ("$ID" in s and case.get("id") is None)
+    cid = case.get("id")
+    falsy = cid is not None and not (cid.get("s") if "s" in cid else cid.get("i"))
+    return "$TOK" in s or ("$ID" in s and (cid is None or falsy))
 
 
 def place(case):
@@ -121,7 +125,8 @@ def seeded(rng, alphabet, weights=None, max_len=12, ids=None, progress_p=0.5, ca
     times = sorted(rand_time(rng, D) for _ in range(n))
     word = rng.choices(alphabet, weights=weights, k=n)
     case = {
-        "id": rng.choice(ids or [{"s": "abc"}, {"s": "7"}, {"s": "-12"}, None, {"s": "9c0e2b0e-1b7f-4a52-9a55-2f1f7a0e3c11"}]),
+        "id": rng.choice(ids or [{"s": "abc"}, {"s": "7"}, {"s": "-12"}, None, {"s": "9c0e2b0e-1b7f-4a52-9a55-2f1f7a0e3c11"},
+                                 {"s": ""}, {"i": 0}, {"i": 7}, {"s": "0"}, {"s": " x "}]),
         "method": rng.choice(["tools/list", "resources/read", "x/y"]),
         "params": rng.choice([None, {}, {"a": {"b": None}}, {"_meta": {"k": 1}, "z": [1, None]}]),
         "D": D, "tie": rng.choice(["events", "timers"]),
